@@ -128,13 +128,15 @@ Lemma run_select_not_err : forall sch pv dat e tbl q er,
 Proof.
   intros sch pv dat e tbl q er H.
   destruct e; try (exfalso; simpl in H; crush_rnode H; fail).
-  cbn [run_select]. rewrite H.
+  unfold run_select. cbn [go]. rewrite H.
   match goal with |- context [match ?s with inl _ => _ | inr _ => _ end] => destruct s as [rows|r] eqn:S end.
-  - destruct (lower_query q); simpl; [apply exec_query_not_err | discriminate].
+  - match goal with |- context [comp sch pv ?e' tbl] => destruct (comp sch pv e' tbl) as [[n|q']|e1] end;
+      simpl; try discriminate.
+    destruct (lower_query q'); simpl; [apply exec_query_not_err | discriminate].
   - simpl. destruct fk; try (inversion S; subst; discriminate).
     + destruct (assoc name dat); inversion S; subst; discriminate.
     + destruct fe as [sub|]; [|inversion S; subst; discriminate].
-      destruct (run_select sch pv dat sub tbl) as [[qi|] [ty rws|e0| |s0]]; inversion S; subst; discriminate.
+      destruct (snd (go sch pv dat sub tbl)) as [[qi|] [ty rws|e0| |s0]]; inversion S; subst; discriminate.
 Qed.
 
 Theorem run_rejects_iff_compile_rejects : forall sch p dat st e,
